@@ -287,6 +287,33 @@ theorem C03_apply_verifies_kw (src rcv : AadCtx) (prot kid : Bytes) (kek cek : K
 
 end
 
+/-- **Alterations of the security-source text are noticed, up to the codec's normalisation.** The AAD is
+    built from the decoded-and-re-encoded source text `norm a` of the received text `a`. Two received
+    texts give the same AAD only if the normalisation identifies them; with `norm = knownEidNorm`
+    (TAB / CR / LF removed, '/' appended to a bare authority) nothing else goes unnoticed – in
+    particular a trailing '?' or '#' does (examples below). The normalised cases themselves are a
+    weakness of the implementation (the received octets are not what is authenticated). -/
+theorem C03_source_text_noticed (crcFn : Nat → Bytes → Bytes) (norm : Bytes → Bytes) (x : AadCtx) (a b : Bytes)
+    (v w : View)
+    (hx : coveredView crcFn { x with ssrc := .dtn (norm a) } = some v)
+    (hy : coveredView crcFn { x with ssrc := .dtn (norm b) } = some w)
+    (bv : ViewBounded v) (bw : ViewBounded w)
+    (h : externalAad crcFn { x with ssrc := .dtn (norm a) } = externalAad crcFn { x with ssrc := .dtn (norm b) }) :
+    norm a = norm b := by
+  have hvw := C03_aad_injective crcFn _ _ v w hx hy bv bw h
+  have h1 := coveredView_ssrc hx
+  have h2 := coveredView_ssrc hy
+  rw [hvw, h2] at h1
+  simpa using h1.symm
+
+/-- what the known normalisation identifies with `//node/`, and what it does not -/
+example : knownEidNorm (ascii "//node") = ascii "//node/" ∧ knownEidNorm (ascii "//no\tde/") = ascii "//node/" ∧
+    knownEidNorm (ascii "//no\nde/\r") = ascii "//node/" ∧ knownEidNorm (ascii "//node/") = ascii "//node/" ∧
+    knownEidNorm (ascii "//node?") ≠ ascii "//node/" ∧ knownEidNorm (ascii "//node#") ≠ ascii "//node/" ∧
+    knownEidNorm (ascii "//node/?") ≠ ascii "//node/" ∧ knownEidNorm (ascii "//node/ ") ≠ ascii "//node/" ∧
+    knownEidNorm (ascii "//nodf/") ≠ ascii "//node/" := by
+  decide
+
 /-- **A certificate key is usable only on a positive identity match.** With certificates as key
     references, the verifier obtains a key exactly when the chain validates and the end-entity
     certificate carries a NODE-ID equal to the security source; "no NODE-ID in the certificate"
